@@ -152,7 +152,7 @@ def check_backward(ctx: Ctx, m, ks, novmap=False):
                 return
 
 
-def mtl_program(rng, T, novmap=False):
+def mtl_program(rng, T, novmap=False, novmap_heads=False):
     M = MTL()
     P = M.P
     n = rng.choice([1, 2, 3])
@@ -165,18 +165,26 @@ def mtl_program(rng, T, novmap=False):
     grow(rng, P, pool, rng.choice([1, 2]), max_numel=6)
     feats = [i for i in pool if i != g][: rng.choice([1, 2])] or [g]
     M.shared_leaves, M.features = [x], feats
+    if rng.random() < 0.5:
+        # a shared parameter of the same size that nothing depends on, listed first: its columns are zero for every chunk size
+        z = P.add_leaf((n,), [rng.choice([-1, 1, 2]) for _ in range(n)])
+        M.shared_leaves = [z, x]
     for t in range(T):
         own = []
-        if rng.random() < 0.6:
+        if rng.random() < 0.6 and not novmap_heads:
             own.append(P.add_leaf((2,), [rng.choice([-1, 1, 2]) for _ in range(2)]))
-        hp = list(feats) + own
+        hf = list(feats)
+        if novmap_heads:
+            # the op that cannot be batched sits in the HEAD: no head may be differentiated through vmap either
+            hf = [P.add_aff(lambda t_: NoBatchedBackward.apply(t_[0]), [f], f"NoBatchedBackward(n{f})")[0] for f in feats]
+        hp = hf + own
         M.losses.append(to_scalar(rng, P, hp))
         M.task_leaves.append(own)
     return M, g
 
 
-def check_mtl(ctx: Ctx, T, ks, novmap=False):
-    M, g = mtl_program(ctx.rng, T, novmap)
+def check_mtl(ctx: Ctx, T, ks, novmap=False, novmap_heads=False):
+    M, g = mtl_program(ctx.rng, T, novmap, novmap_heads)
     P = M.P
     leaves = P.leaves()
     w = [ctx.rng.randint(-5, 7) for _ in range(T)]
@@ -232,6 +240,9 @@ def main(ctx: Ctx):
         for T in range(1, (6 if quick else 9)):
             check_mtl(ctx, T, [None] + list(range(1, T + 3)))
             check_mtl(ctx, T, [1] if T > 1 else [None, 1, 2, 3], novmap=True)
+            # heads without parameters of their own, a vmap-incompatible op in every head: every chunk size must work (the
+            # heads are differentiated one loss at a time whatever the chunk size)
+            check_mtl(ctx, T, [None, 1, 2, T + 1], novmap_heads=True)
     if quick:
         for m in (9, 10, 11, 12):
             ks = sorted(set(ctx.rng.sample(range(1, m + 3), 4)))
